@@ -78,7 +78,7 @@ COMPOSITE_PART_PATTERNS = {
 
 PART_PATTERNS = {
     'year'       : r"\d{4}",
-    'month'      : r"(?:0[0-9]|1[0-2])",
+    'month'      : r"(?:0[1-9]|1[0-2])",
     'month_short': r"(?:1[0-2]|[1-9])",
     'build_no'   : r"\d{4,}",
     'pep440_tag' : r"(?:a|b|dev|rc|post)?\d*",
@@ -90,7 +90,7 @@ PART_PATTERNS = {
     'us_week'    : r"(?:[0-4]\d|5[0-3])",
     'dom'        : r"(0[1-9]|[1-2][0-9]|3[0-1])",
     'dom_short'  : r"(3[0-1]|[1-2][0-9]|[1-9])",
-    'doy'        : r"(?:[0-2]\d\d|3[0-5][0-9]|36[0-6])",
+    'doy'        : r"(?:00[1-9]|0[1-9]\d|[1-2]\d\d|3[0-5][0-9]|36[0-6])",
     'doy_short'  : r"(?:36[0-6]|3[0-5][0-9]|[1-2][0-9][0-9]|[1-9][0-9]|[1-9])",
     'MAJOR'      : r"\d+",
     'MINOR'      : r"\d+",
